@@ -690,9 +690,13 @@ class World(WorldBase):
     def _check_box(self, s, w, t, tag, ndim):
         if s.boxbounds.shape != (ndim, 2):
             raise Violation(f"C19/loop-bounds:{tag}", f"frame {t}: boxbounds shape {s.boxbounds.shape}")
-        if np.max(np.abs(s.boxbounds - w["bounds"])) > 5.0e-7 + 1e-12:
+        # half a unit of the header's sixth decimal, plus what a float64 of that size cannot
+        # resolve (a box a million away from the origin has neighbours 1e-10 apart: a written
+        # ...6126165 is a tie only on paper)
+        slack = 1e-12 + 4 * float(np.spacing(np.max(np.abs(w["bounds"])) + 1.0))
+        if np.max(np.abs(s.boxbounds - w["bounds"])) > 5.0e-7 + slack:
             raise Violation(f"C19/loop-bounds:{tag}", f"frame {t}: read {s.boxbounds.tolist()}, written {w['bounds'].tolist()}")
-        if np.max(np.abs(s.boxlength - (w["bounds"][:, 1] - w["bounds"][:, 0]))) > 1.0e-6 + 1e-12:
+        if np.max(np.abs(s.boxlength - (w["bounds"][:, 1] - w["bounds"][:, 0]))) > 1.0e-6 + 2 * slack:
             raise Violation(f"C19/loop-boxlength:{tag}", f"frame {t}: boxlength {s.boxlength.tolist()}")
 
     def do_read_dump(self, op):
